@@ -4,6 +4,7 @@ C03 - property theorems: extended output is one coherent, seekable byte stream.
 import B3.Proofs.Xof
 import B3.Proofs.GenK
 import B3.Props.C02
+import B3.Proofs.Regions
 namespace B3.Props.C03
 open B3 B3.Rs
 
@@ -133,5 +134,19 @@ theorem finalize_xof_stream (sd j : Nat) (hsd : sd = 2 ^ j) (ops : List C02.Op) 
   have hb : (Spec.root reg.mode reg.absorbed).blen ≤ 64 := Proofs.rootNode_blen _ _ _
   have := reader_history (Spec.root reg.mode reg.absorbed) hb [ROp.setPosition p] n
   simpa [rstep, set_position_position] using this
+
+/-- **Seek arithmetic, tied to the source.** `impl Seek for OutputReader`, `position` and
+`set_position` are regenerated from src/lib.rs on every run (`Gen.Rs.seek`: the match arms as exact
+integer expressions; `Gen.Rs.reader_position` / `reader_set_position` in checked u64 arithmetic) and
+equal the model's functions for every reader and every `SeekFrom` value: same failures, same target
+position, no overflow for any position below 2^64. -/
+theorem seek_translated_eq_model (r : OutputReader) (sf : SeekFrom) :
+    Gen.Rs.seek r.position (Proofs.toGenSeek sf) = (r.seek sf).map (fun x => x.2) :=
+  Proofs.reader_seek_eq r sf
+
+theorem position_translated_eq_model (r : OutputReader) (h : r.position < 2 ^ 64) (p : Nat) :
+    Gen.Rs.reader_position r.inner.t r.pwb = .ok r.position ∧
+    Gen.Rs.reader_set_position p = .ok ((r.setPosition p).inner.t, (r.setPosition p).pwb) :=
+  ⟨Proofs.reader_position_eq r h, Proofs.reader_set_position_eq r p⟩
 
 end B3.Props.C03
